@@ -301,6 +301,17 @@ let run (path : string) : unit =
       | [ "X"; mx; wm; pm ] ->
           cur_max := Some (Z.of_string mx);
           if !maint then ms := M.m_set_maximum !ms (z mx) (z wm) (z pm)
+      | "P" :: n :: order ->
+          (* the write buffer's events re-queued in another order *)
+          if !maint then begin
+            let old = Array.of_list (M.wbuf !ms) in
+            if Array.length old <> int_of_string n then
+              mismatch "maint" ln "write buffer permuted: model holds %d events, implementation %s" (Array.length old) n
+            else begin
+              ms := { !ms with M.wbuf = List.map (fun i -> old.(int_of_string i)) order };
+              count "write_buffer_permuted"
+            end
+          end
       | [ "M"; now ] ->
           if !maint then begin
             refresh_exps ();
